@@ -248,6 +248,34 @@ def op_zst_return(p, r):
     return op.name, m.name, "zero-sized struct returned outside Result/Option"
 
 
+def op_zst_nested_input(p, r):
+    """a zero-sized struct that reaches Rust as an input without being the bare type of a parameter (seed C05-g: the rule checked for
+    top-level parameters only): inside an Option in either spelling, as a field of an argument struct, as what a callback or a trait
+    method hands back"""
+    op = first(p, "opaque")
+    if not op:
+        return None
+    z = spec.Struct("ZstBad", [])
+    p.modules[0].items.append(z)
+    v = r.randrange(6)
+    if v == 0:
+        m = add_method(op, "bad_zst", ("ref", None), [("x", ("prim", "u8")), ("z", raw("Option<ZstBad>"))], ("unit",))
+        return op.name, m.name, "zero-sized struct inside an Option argument"
+    if v == 1:
+        m = add_method(op, "bad_zst", None, [("z", raw("DiplomatOption<ZstBad>"))], ("prim", "u8"))
+        return op.name, m.name, "zero-sized struct inside a DiplomatOption argument"
+    if v in (2, 3):
+        st = first(p, "struct", lambda t: not t.lifetimes)
+        if not st:
+            return None
+        st.fields.insert(r.randrange(len(st.fields) + 1), ("bad", raw("ZstBad") if v == 2 else raw("DiplomatOption<ZstBad>")))
+        return st.name, None, "zero-sized struct as a field of an argument struct"
+    if v == 4:
+        m = add_method(op, "bad_zst", ("ref", None), [("f", raw("impl Fn(u8) -> ZstBad"))], ("unit",))
+        return op.name, m.name, "callback returning a zero-sized struct"
+    return trait_fault(p, r, bad_ret="ZstBad", what="trait method returning a zero-sized struct")
+
+
 def op_elided_lifetime_return(p, r):
     op = first(p, "opaque")
     if not op:
@@ -421,7 +449,7 @@ OPERATORS = [op_trait_ref_struct_arg, op_trait_opaque_by_value_arg, op_trait_res
              op_outstruct_param, op_outstruct_self, op_ref_struct_param, op_ref_struct_self, op_box_struct_return, op_ref_prim_param,
              op_result_param, op_result_nested_return, op_result_field, op_std_option_prim_field, op_std_option_enum_field,
              op_std_option_struct_field, op_diplomat_option_ref, op_option_box_param, op_option_opaque_value, op_write_not_last,
-             op_write_by_value_return, op_zst_struct_arg, op_zst_return, op_elided_lifetime_return, op_missing_opaque_def_bound,
+             op_write_by_value_return, op_zst_struct_arg, op_zst_nested_input, op_zst_return, op_elided_lifetime_return, op_missing_opaque_def_bound,
              op_missing_struct_bound, op_ordering_param, op_unit_param, op_owned_slice_return, op_strs_return, op_callback_return]
 
 # features a backend's profile does not support: the same module is valid elsewhere and must be rejected here
